@@ -218,6 +218,13 @@ Proof.
         | (unfold reload_date, sqlite_date_sql2py, sqlite_date_py2sql; rewrite (iso_date_parses d V); reflexivity) ].
 Qed.
 
+(* SQLiteDateConverter.py2sql writes four-digit years (repaired in /repo commit 80b5dcb: val.isoformat()): the flag computes to true *)
+Lemma date_flag_true : date_text_pads_year = true.
+Proof. vm_compute. reflexivity. Qed.
+
+Theorem date_reload d : valid_date d -> reload_date d = RVal d.
+Proof. exact (date_reload_full_if_fixed d date_flag_true). Qed.
+
 (* time: depends on what the translated sql2py returns (a sql2py whose strptime call or returned expression raises hands back the raw string) *)
 Theorem time_reload_full_if_fixed p t :
   time_reloads_as_str = false -> 0 <= p <= 6 -> valid_time t -> reload_time p t = RVal (validate_time p t).
@@ -315,14 +322,6 @@ Theorem identity_transport :
 Proof. repeat split. Qed.
 
 (* ------------------------------------------------------------------------------------------------ witnesses for the known findings *)
-Lemma date_999_valid : valid_date (mk_date 999 12 31).
-Proof. vm_compute. reflexivity. Qed.
-
-(* date(999, 12, 31) is written as '999-12-31' and comes back as that string *)
-Lemma date_below_1000_refuted : date_text_pads_year = false ->
-  valid_date (mk_date 999 12 31) /\ reload_date (mk_date 999 12 31) = RStr [57; 57; 57; 45; 49; 50; 45; 51; 49].
-Proof. intros F. first [ (vm_compute in F; discriminate F) | (split; [exact date_999_valid | vm_compute; reflexivity]) ]. Qed.
-
 (* Decimal('1.239') in a scale-2 attribute: the writing session keeps 1.239, every later session reads 1.24 *)
 Lemma decimal_unrounded_refuted :
   dec_reload 2 (1239, -3) = (124, -2) /\ dec_eqb (dec_reload 2 (1239, -3)) (1239, -3) = false.
